@@ -94,19 +94,31 @@ impl TextDocument {
         Ok(())
     }
 
+    /// Converts an LSP position to a byte index into `content`.
+    ///
+    /// `position.character` counts UTF-16 code units (the protocol default, no other encoding
+    /// is negotiated) and a character offset past the end of the line is clamped to the end of
+    /// the line, as the protocol prescribes.
     fn position_to_index(&self, position: Position) -> usize {
-        let line_offset = self
-            .line_offsets
-            .get(position.line as usize)
-            .copied()
-            .unwrap_or(self.content.len());
-        line_offset + position.character as usize
+        let line = position.line as usize;
+        let Some(&line_start) = self.line_offsets.get(line) else {
+            return self.content.len();
+        };
+        let mut units = 0usize;
+        for (i, c) in self.content[line_start..].char_indices() {
+            if c == '\n' || c == '\r' || units >= position.character as usize {
+                return line_start + i;
+            }
+            units += c.len_utf16();
+        }
+        self.content.len()
     }
 
+    /// Byte offsets of the line starts. The protocol's line terminators are `\n`, `\r\n` and `\r`.
     fn calculate_line_offsets(text: &str) -> Vec<usize> {
         let mut offsets = vec![0];
         for (i, c) in text.char_indices() {
-            if c == '\n' {
+            if c == '\n' || (c == '\r' && !text[i + 1..].starts_with('\n')) {
                 offsets.push(i + 1);
             }
         }
